@@ -559,6 +559,26 @@ def r18d(ctx):
                           f"`{norm(c, 90)}` decides 'leaf' without calling self.expand(): objects expanded by "
                           f"default_expander (custom classes) have children but count as leaves, so a cycle running only "
                           f"through such objects skips the ancestor scan and is expanded forever")
+    # the same decision written as a loop with a flag: a `for` over the grandchildren whose body only decides (tests, flag
+    # assignments, continue / break) is a leaf test, and it must expand what it tests
+    for g in region:
+        if g.node.name in ("expand", "resolve_expander", "resolve_builder"):
+            continue
+        for lp in walk_no_nested(g.node):
+            if not (isinstance(lp, ast.For) and (dotted(lp.iter) in listnames or dotted(lp.iter) in func_params(g.node))
+                    and dotted(lp.iter) not in stack_names.get(g.qual, set())):
+                continue
+            body_nodes = [x for s_ in lp.body for x in ast.walk(s_)]
+            deciding = all(isinstance(x, (ast.If, ast.Assign, ast.Continue, ast.Break, ast.Pass, ast.expr, ast.expr_context, ast.boolop,
+                                          ast.unaryop, ast.cmpop, ast.operator, ast.keyword)) for x in body_nodes) \
+                and any(isinstance(x, (ast.Break, ast.Continue)) for x in body_nodes) \
+                and any(isinstance(x, ast.Assign) and isinstance(x.value, ast.Constant) and isinstance(x.value.value, bool) for x in body_nodes)
+            if deciding and not any(reaches_expand(s_) for s_ in lp.body):
+                ctx.violation("R18d", f, g.short, lp, "leaf shortcut uses expand()",
+                              f"the loop `for {norm(lp.target, 20)} in {norm(lp.iter, 30)}` decides whether the ancestor scan is needed without "
+                              f"calling self.expand() on the grandchildren (`{norm(lp.body[0], 60)}`): objects expanded by default_expander "
+                              f"(custom classes in pydiff) have children but no registered expander, so a cycle running only through them "
+                              f"skips the scan and is expanded forever")
     # recursive builders
     for fq in ("graphtage.json.build_tree",):
         g = m.functions.get(fq)
